@@ -3,21 +3,21 @@
 import json, os
 HERE = os.path.dirname(os.path.dirname(os.path.abspath(__file__)))
 
-E1_TECH = "deterministic simulation with fault injection: the real node (all goroutines) in a synctest bubble under a seeded baton scheduler, simulated transport/disk/clock, scripted peers; oracle over the recorded history; seeded search with replay + tape minimisation"
+E1_TECH = "deterministic simulation with fault injection: the real node (all goroutines) in a synctest bubble under a seeded baton scheduler (pre-emption at every lock / channel / I/O point, injected thread stalls), simulated transport/disk/clock, scripted peers; oracle over the recorded history; seeded search with replay + tape minimisation"
 E1_NOTE = "Sampling, not proof. Trusted base: go1.26.8 synctest, the source-to-source instrumentation pass, the peer/world models. OutputFetcher/TxFetcher, transport, disk, clock and scheduling are simulated; everything else is the repository's code."
 
-E2_TECH = "deterministic simulation with fault injection: the real RemoteClient (all threads) in a synctest bubble under a seeded baton scheduler against a scripted service over the simulated transport (latency, fragmentation, slow writes, drops); oracle over the recorded call/response/byte history; seeded search with replay + tape minimisation"
+E2_TECH = "deterministic simulation with fault injection: the real RemoteClient (all threads) in a synctest bubble under a seeded baton scheduler with injected thread stalls, against a scripted service over the simulated transport (latency, fragmentation, slow writes, drops); oracle over the recorded call/response/byte history; seeded search with replay + tape minimisation"
 E2_NOTE = "Sampling, not proof. Trusted base: go1.26.8 synctest, the instrumentation pass (incl. every select statement of remote_client.go and the tokenized/threads copy), the service model. The session hash comes from a deterministic stream instead of crypto/rand."
 
 CLAIMED = {
  "C02": ("exploration", E1_TECH,
          "With a trusted peer that answers header and block requests Byzantine-ly (shuffled / gapped / duplicated / unknown-parent / mixed-branch header lists, empty headers, blocks unrequested, twice, swapped, never) and sends such messages unsolicited, the block repository stays hash-linked with mutually inverse height/hash answers at every check (every 5-45 simulated ms, in every HandleHeaders callback, at the end), and announced heights are contiguous, restart at fork+1, link to what was announced before and equal what the node holds.",
          E1_NOTE, "6 C02, App. C"),
- "C10": ("fault_enumeration", "deterministic simulation with fault injection at the storage seam: the mutation log of a simulated sync/reorg/shutdown run is recorded and every prefix (quick: up to 60 per scenario, all around deletes and reorg records) is restarted; plus seeded single-operation error injection",
-         "For each generated scenario every enumerated crash image (initial image + first i storage mutations) loads without error into a hash-linked chain that lies on one trusted-announced branch, and a new node started on it converges to the peer's best chain. With one storage operation failing the node converges anyway or after a clean restart, with linked chains in memory and on disk.",
+ "C10": ("fault_enumeration", "deterministic simulation with fault injection at the storage seam: the mutation log of a simulated sync/reorg/shutdown run is recorded and every prefix (quick: up to 60 per scenario, all around deletes and reorg records) is restarted; seeded single-operation error injection by index and by operation class; at component level every crash prefix and every single-failure position of block-store histories with reverts across one and two 1000-header files",
+         "For each generated scenario every enumerated crash image (initial image + first i storage mutations) loads without error into a hash-linked chain that lies on one trusted-announced branch, and a new node started on it converges to the peer's best chain. With one storage operation failing the node converges anyway or after a clean restart, with linked chains in memory and on disk (also when it carried on without a restart: what a clean stop leaves must load and lead to the peer's chain). Component level: every crash prefix of generated add / AddNext / save / revert histories loads into a linked chain of added headers; with any single storage operation failing once and the caller saving and trying again, the running and the reloaded repository equal the model chain.",
          E1_NOTE + " An individual Write/Remove of the storage interface is atomic (torn writes inside one call are outside the statement).", "6 C10"),
  "C12": ("exploration", E1_TECH,
-         "With 1-3 untrusted connections sending generated adversarial traffic next to an honest trusted peer: the node still converges to the trusted chain, every block of its chain and every block announced to handlers was announced by the trusted peer, no confirmation refers to another block, nothing is reported safe without a trusted sighting, no getdata goes to a connection before it proved chain membership and never for blocks, and no transaction reaches handlers without some verified untrusted connection.",
+         "With 1-3 untrusted connections sending generated adversarial traffic (plain and in the extmsg envelope) next to an honest trusted peer: the node still converges to the trusted chain, every block of its chain and every block announced to handlers was announced by the trusted peer, no confirmation refers to another block, nothing is reported safe without a trusted sighting, no getdata goes to a connection before it proved chain membership and never for blocks, and no transaction reaches handlers without some verified untrusted connection.",
          E1_NOTE, "6 C12"),
  "C16": ("exploration", E2_TECH,
          "For 1-8 concurrent calls with distinct keys and any service behaviour per key (answer, reject, answer twice, silence; before or after the caller's time-out; unsolicited responses) each call returns exactly its own response or RejectError(code, text), or ErrTimeout no earlier than the request time-out and within request + message time-out + 5 s; GetOutputs returns each outpoint's own value and script in order or an error.",
@@ -26,7 +26,7 @@ CLAIMED = {
          "For service streams with duplicated, future, old and repeated-after-reconnect ids, connection drops at any stream position, slow handlers and slow writes: ids reach each handler strictly consecutively from the declared id, never twice, both handlers in the same order, NextMessageID() = last + 1, content equals the service's message of that id, and with a service that resumes exactly from the declared id nothing is missed.",
          E2_NOTE, "6 C17, App. C"),
  "C18": ("exploration", E2_TECH,
-         "Over accept variants per connection (valid, long-term key, key for another hash, foreign signature, altered counts, replayed accept, none, reject), both connection types, calls issued before/after accept, during disconnects and after reconnects, concurrent subscriptions, slow writes and drops: every Register verifies against the configured key; nothing but register/subscribe/ready is written before a connection's handshake completed; the client's bytes on every connection parse as whole messages; a call that returned nil was written after the handshake; after a forged accept no accept or data callback occurs and IsAccepted() is false.",
+         "Over accept variants per connection (valid, long-term key, key for another hash, foreign signature, altered counts, replayed accept, none, reject; data sent after, ahead of or without the accept), both connection types, calls issued before/after accept, during disconnects and after reconnects, concurrent subscriptions, slow writes and drops: every Register verifies against the configured key; nothing but register/subscribe/ready is written before a connection's handshake completed; the client's bytes on every connection parse as whole messages; a call that returned nil was written after the handshake; after a forged accept no accept or data callback occurs and IsAccepted() is false.",
          E2_NOTE, "6 C18"),
  "C19": ("exploration", E1_TECH,
          "With Stop requested at a tape-chosen instant of chain and transaction scenarios (while dialling, in the handshake, during sync, in sync, around the node's own reconnects, with slow handlers, untrusted connections, connection faults): Stop and Run return within 120 simulated seconds, the stored chain / unconfirmed set / peers equal the in-memory ones, no callback follows Stop's return, no node task survives, the first header request of every connection starts at the stored tip and no block is announced twice without a reorganisation.",
@@ -38,10 +38,10 @@ CLAIMED = {
          "Over explored transaction sets and arrival histories (trusted/untrusted inv or body, local submission, first seen in a block, duplicates, silent peers, re-announcement after confirmation) every delivered transaction matches the independent reference filter, carries the spent outputs of the world model, is delivered as new at most once, reaches both handlers, and every relevant transaction that arrived while the node was stably in sync, was submitted locally or is in a processed block has been delivered.",
          E1_NOTE, "6 C03"),
  "C04": ("exploration", E1_TECH,
-         "Block transaction counts 1..17, 31, 32, 33 (enumerated by run index; random up to 70 in the thorough tier) with relevant transactions at first/last/odd-leaf/all/random positions, seen before or not: every confirmation notification carries a proof that an independent merkle verifier accepts against the block header, with the true index and depth zero, and the dependency's own verifier agrees on the proof and on tampered variants. Bodies corrupted under an unchanged header (transaction added, dropped, swapped, altered, last duplicated when that changes the root) never enter the chain, are never announced and none of their transactions is delivered.",
+         "Block transaction counts 1..17, 31, 32, 33 (enumerated by run index; random up to 70 in the thorough tier) with relevant transactions at first/last/odd-leaf/all/random positions, seen before or not: every confirmation notification carries a proof that an independent merkle verifier accepts against the block header, with the true index and depth zero, and the dependency's own verifier agrees on the proof and on tampered variants. Bodies corrupted under an unchanged header (transaction added, dropped, swapped, altered, last duplicated when that changes the root) never enter the chain, are never announced and none of their transactions is delivered. In transaction histories with double-spend attempts, chains and a lost trusted connection every notification that carries a proof verifies independently, names the true index and block, and has depth zero.",
          E1_NOTE, "6 C04"),
  "C05": ("exploration", E1_TECH,
-         "For explored k-way and partial outpoint conflicts in all arrival orders and sources, every relevant transaction of a pair that was processed while both were unconfirmed is reported unsafe, and no transaction is reported unsafe without a conflicting transaction having reached the node (also after evictions by confirmed conflicts).",
+         "For explored k-way and partial outpoint conflicts in all arrival orders and sources, every relevant transaction of a pair that was processed while both were unconfirmed is reported unsafe, neither is reported safe afterwards, and no transaction is reported unsafe without a conflicting transaction having reached the node (also after evictions by confirmed conflicts).",
          E1_NOTE, "6 C05"),
  "C06": ("exploration", E1_TECH,
          "For explored unconfirmed sets and blocks confirming conflicting transactions (winner relevant or not, seen before or not), every previously delivered relevant loser receives a cancelled+unsafe update, the chain reaches the peer's tip, and every relevant transaction of a processed block has a notification whose merkle proof an independent verifier accepts.",
@@ -54,7 +54,7 @@ CLAIMED = {
          "With a clean Stop and a new node on the same simulated disk inserted at a quiescent point of explored histories: no tracked transaction is delivered as new again, a later confirmation is an update with proof, safe is not repeated and never follows unsafe, a vouched conflict-free transaction becomes safe at first-seen + delay (millisecond first-seen time and trusted flag survive), and GetTx returns the bytes that were sent to handlers for every delivered txid with the external tx service disabled. The unconfirmed file round-trips 0..8 entries with all flag combinations and millisecond times.",
          E1_NOTE, "6 C11"),
  "C14": ("exploration", E1_TECH,
-         "From the getdata messages seen on all simulated connections: no second request for a txid inside the three-second window, none after its body arrived and none from stale tracker state after a block containing it was processed; when the asked peer stays silent and another connection that announced the txid inside the window shows activity after it, that connection is asked within 5 s.",
+         "From the getdata messages seen on all simulated connections (with ping storms on every connection while blocks are fetched and processed): no second request for a txid inside the three-second window, none after its body arrived and none from stale tracker state after a block containing it was processed; when the asked peer stays silent and another connection that announced the txid inside the window shows activity after it, that connection is asked within 5 s.",
          E1_NOTE + " Requests caused by a fresh announcement after the transaction was confirmed are not judged (the node keeps no record of confirmed irrelevant transactions).", "6 C14, App. C"),
  "C08": ("exploration",
          "deterministic simulation: reference-model comparison of the real subscription filter over seeded operation histories and grammar-generated scripts; concurrent callers under the seeded baton scheduler with the recorded invoke/return history checked for linearizability (porcupine); and the whole-node transaction scenario with generated scripts and subscription histories",
